@@ -170,8 +170,15 @@ func init() {
 			sub := addNode(w, Node{Name: "sub", Kind: KStreamToSub, Ins: []InSpec{{Name: "in", From: []Edge{up}}}, Outs: []OutSpec{{Name: "substream"}}})
 			// separators incl. multi-character ones that share characters with the end of the member paths
 			sep := []string{" ", ",", ":", "+", ".o0,", "txt+"}[t.Choose(simrt.StGen, 6, 0)]
+			joinIns := []InSpec{{Name: "x", From: []Edge{{sub, "substream"}}, Join: true, Sep: sep}}
+			if t.Choose(simrt.StGen, 3, 0) == 1 {
+				// a second joined in-port on the same process, fed by its own sub-stream
+				n2 := itemCounts[t.Choose(simrt.StGen, 5, 0)]
+				sub2 := addNode(w, Node{Name: "sub2", Kind: KStreamToSub, Ins: []InSpec{{Name: "in", From: []Edge{{srcNode(w, "src1", n2, ""), "out"}}}}, Outs: []OutSpec{{Name: "substream"}}})
+				joinIns = append(joinIns, InSpec{Name: "y", From: []Edge{{sub2, "substream"}}, Join: true, Sep: sep})
+			}
 			j := addNode(w, Node{Name: "join", Kind: KProc, Cores: 1,
-				Ins:  []InSpec{{Name: "x", From: []Edge{{sub, "substream"}}, Join: true, Sep: sep}},
+				Ins:  joinIns,
 				Outs: []OutSpec{{Name: "o0", Pattern: "joined.join.o0"}}})
 			if t.Choose(simrt.StGen, 2, 0) == 1 {
 				oneToOne(w, "post", Edge{j, "o0"})
@@ -207,8 +214,10 @@ func init() {
 			var want []string
 			for _, tk := range ex.Tasks {
 				if tk.Proc == "join" {
-					for _, m := range tk.Joined["x"] {
-						want = append(want, Abs(m.Path))
+					for _, port := range []string{"x", "y"} {
+						for _, m := range tk.Joined[port] {
+							want = append(want, Abs(m.Path))
+						}
 					}
 				}
 			}
@@ -220,8 +229,19 @@ func init() {
 			if strings.Join(got, " ") != strings.Join(want, " ") {
 				return Viol("join-members", "", "joined placeholder expanded to %v (resolved from %s: %v); the sub-stream was %v", o.Joined, o.Cwd, got, want)
 			}
-			if len(o.Joined) > 0 && !strings.Contains(o.Script, strings.Join(o.Joined, sep)) {
-				return Viol("join-separator", "", "the executed script %q does not contain the members joined by %q", o.Script, sep)
+			// per joined port: the members as written, joined by SEP, appear literally in the script
+			off := 0
+			for _, tk := range ex.Tasks {
+				if tk.Proc != "join" {
+					continue
+				}
+				for _, port := range []string{"x", "y"} {
+					n := len(tk.Joined[port])
+					if n > 0 && off+n <= len(o.Joined) && !strings.Contains(o.Script, strings.Join(o.Joined[off:off+n], sep)) {
+						return Viol("join-separator", "", "the executed script %q does not contain the members of port %s joined by %q", o.Script, port, sep)
+					}
+					off += n
+				}
 			}
 			if v := flowOracle(inc, ex); v.Status != "ok" {
 				// only the joining task's own output is this property's business
